@@ -6,8 +6,6 @@ package harness
 
 import (
 	"testing"
-
-	vmcommon "github.com/ElrondNetwork/elrond-vm-common"
 )
 
 func c09Sweep(t *testing.T, st *Stats) {
@@ -21,9 +19,9 @@ func c09Sweep(t *testing.T, st *Stats) {
 		"cross": {"user": spec.Users[2], "contract": spec.Contracts[1].Addr},
 	}
 	idx := 0
-	for _, fn := range []string{vmcommon.BuiltInFunctionESDTTransfer, vmcommon.BuiltInFunctionESDTNFTTransfer, vmcommon.BuiltInFunctionMultiESDTNFTTransfer} {
+	for _, fn := range []string{refBuiltInFunctionESDTTransfer, refBuiltInFunctionESDTNFTTransfer, refBuiltInFunctionMultiESDTNFTTransfer} {
 		kinds := []string{"-"}
-		if fn == vmcommon.BuiltInFunctionMultiESDTNFTTransfer {
+		if fn == refBuiltInFunctionMultiESDTNFTTransfer {
 			kinds = []string{"fungible", "nft", "mixed"}
 		}
 		for _, kind := range kinds {
@@ -45,9 +43,9 @@ func c09Sweep(t *testing.T, st *Stats) {
 									e := NewEngine(spec)
 									sh := func(a []byte) int { return int(e.M.shardOf(a)) }
 									setup := []*Call{
-										{Shard: sh(snd), Fn: vmcommon.BuiltInFunctionESDTTransfer, Caller: sys, Rcv: snd, Args: hbs(F, []byte{50})},
-										{Shard: sh(snd), Fn: vmcommon.BuiltInFunctionSetESDTRole, Caller: sys, Rcv: snd, Args: hbs(S, []byte(vmcommon.ESDTRoleNFTCreate), []byte(vmcommon.ESDTRoleNFTAddQuantity))},
-										{Shard: sh(snd), Fn: vmcommon.BuiltInFunctionESDTNFTCreate, Caller: snd, Rcv: snd, Gas: ampleGas, Args: hbs(S, []byte{9}, []byte("n"), []byte{}, []byte("h"), []byte{}, []byte("u"))},
+										{Shard: sh(snd), Fn: refBuiltInFunctionESDTTransfer, Caller: sys, Rcv: snd, Args: hbs(F, []byte{50})},
+										{Shard: sh(snd), Fn: refBuiltInFunctionSetESDTRole, Caller: sys, Rcv: snd, Args: hbs(S, []byte(refESDTRoleNFTCreate), []byte(refESDTRoleNFTAddQuantity))},
+										{Shard: sh(snd), Fn: refBuiltInFunctionESDTNFTCreate, Caller: snd, Rcv: snd, Gas: ampleGas, Args: hbs(S, []byte{9}, []byte("n"), []byte{}, []byte("h"), []byte{}, []byte("u"))},
 									}
 									ok := true
 									for _, c := range setup {
@@ -61,9 +59,9 @@ func c09Sweep(t *testing.T, st *Stats) {
 									e.Apply(Op{Kind: "payable", Shard: sh(dst), Addr: dst, Mode: mode})
 									var args [][]byte
 									switch fn {
-									case vmcommon.BuiltInFunctionESDTTransfer:
+									case refBuiltInFunctionESDTTransfer:
 										args = [][]byte{F, {3}}
-									case vmcommon.BuiltInFunctionESDTNFTTransfer:
+									case refBuiltInFunctionESDTNFTTransfer:
 										args = [][]byte{S, {1}, {2}, dst}
 									default:
 										switch kind {
@@ -84,7 +82,7 @@ func c09Sweep(t *testing.T, st *Stats) {
 										args = append(args, []byte("accept"), []byte{7})
 									}
 									c := &Call{Shard: sh(snd), Fn: fn, Caller: cp(snd), Rcv: cp(snd), Args: hbs(args...), Gas: ampleGas, CallType: ct}
-									if fn == vmcommon.BuiltInFunctionESDTTransfer {
+									if fn == refBuiltInFunctionESDTTransfer {
 										c.Rcv = cp(dst)
 									}
 									label := sprintf("%s|%s|%s|%s->%s|oracle=%d|type=%d|args=min%+d", fn, kind, route, sndKind, dstKind, mode, ct, extra)
